@@ -513,56 +513,70 @@ def _fortran_hook(ctx, rid):
         raise AnalysisError(f"{rid}: fortran_funcs['roll'] is no longer bound to 'cshift' (re-derive the direction argument)")
     ctx.require(len(f.params) == 2, f"{rid}: FortranBackend.expr_to_str signature changed")
     p_expr, p_args = f.params
-    # the guard: `'cshift(' in expr`
-    guards = []
-    for n in walk_shallow(f.node):
-        if isinstance(n, ast.If) and isinstance(n.test, ast.Compare) and len(n.test.ops) == 1 and isinstance(n.test.ops[0], ast.In) \
-                and isinstance(n.test.comparators[0], ast.Name) and n.test.comparators[0].id == p_expr:
-            l = n.test.left
-            v = const_str(l)
-            if v is None and isinstance(l, ast.Name):
-                sv = U.single_value(ctx, f, l)
-                v = const_str(sv) if sv is not None else None
-            if v is not None and v.startswith("cshift"):
-                guards.append(n)
-    if not guards:
+    label = "cshift shift negation"
+
+    # does the function deal with cshift calls at all?  (a membership / find test with the literal, in either polarity)
+    mentions_cshift = [n for n in walk_shallow(f.node) if isinstance(n, ast.Constant) and isinstance(n.value, str) and n.value.startswith("cshift")]
+    # replacements: replace(subject, old, new) or subject.replace(old, new)
+    reps = []
+    for c in walk_shallow(f.node):
+        if isinstance(c, ast.Call) and call_name(c) == "replace":
+            if isinstance(c.func, ast.Attribute) and len(c.args) >= 2 and not (isinstance(c.func.value, ast.Name) and c.func.value.id in ("re", "np", "str")):
+                reps.append((c, c.func.value, c.args[0], c.args[1]))
+            elif len(c.args) >= 3:
+                reps.append((c, c.args[0], c.args[1], c.args[2]))
+    if not mentions_cshift and not reps:
         ctx.violation(rid, f, f.node, "FortranBackend.expr_to_str no longer rewrites cshift calls: roll(buf, 1) is emitted as cshift(buf, 1), "
-                                      "which shifts towards lower indices (slot k would hold the value written max-k steps ago)",
-                      label="cshift shift negation")
+                                      "which shifts towards lower indices (slot k would hold the value written max-k steps ago)", label=label)
         return
-    g = guards[0]
-    # inside: replace(<arg text>, old, new) with new == "-" + old and old == the roll's shift argument
-    reps = [c for st in g.body for c in ast.walk(st) if isinstance(c, ast.Call) and call_name(c) == "replace" and len(c.args) >= 3]
-    if not reps:
-        raise AnalysisError(f"{rid}: {f.qual}: no replace(...) call under the cshift guard (unrecognised form)")
+    if not mentions_cshift or not reps:
+        raise AnalysisError(f"{rid}: {f.qual}: the cshift rewrite is not recognised ({len(mentions_cshift)} cshift literal(s), {len(reps)} replace call(s))")
+    # the replacement of the shift argument: old/new are built from the last operator argument
+    hole = "⟨" + p_args
     neg = None
-    for c in reps:
-        old_t = U.render_expr(ctx, f, c.args[1])
-        new_t = U.render_expr(ctx, f, c.args[2])
-        if old_t.startswith("⟨" + p_args) or new_t.lstrip("-").startswith("⟨" + p_args):
+    for c, subj, old, new_ in reps:
+        old_t = U.render_expr(ctx, f, old)
+        new_t = U.render_expr(ctx, f, new_)
+        if old_t.startswith(hole) or new_t.lstrip("-").startswith(hole):
             neg = (c, old_t, new_t)
             break
     if neg is None:
-        raise AnalysisError(f"{rid}: {f.qual}: cannot find the replacement of the shift argument under the cshift guard")
+        raise AnalysisError(f"{rid}: {f.qual}: cannot find the replacement of the shift argument among the replace calls (unrecognised form)")
     c, old_t, new_t = neg
     facts = {"old": old_t, "new": new_t, "registry": "fortran_funcs['roll']['call'] = 'cshift'"}
-    # the result must flow to the return value
-    ret = [s for s in walk_shallow(f.node) if isinstance(s, ast.Return)]
-    returns_expr = bool(ret) and all(isinstance(s.value, ast.Name) and s.value.id == p_expr for s in ret)
-    rebinds = [st for st in g.body if isinstance(st, ast.Assign) and any(isinstance(t, ast.Name) and t.id == p_expr for t in st.targets)]
+
+    # the rewritten text must reach the return value: some `return` yields a value built (through locals / an enclosing replace of
+    # the expression) from this replacement
+    def reaches(e, depth=0, seen=None):
+        seen = seen if seen is not None else set()
+        for n in ast.walk(e):
+            if n is c:
+                return True
+            if isinstance(n, ast.Name) and isinstance(n.ctx, ast.Load) and depth < 6:
+                for d in ctx.rd(f).defs_reaching(n):
+                    if isinstance(d, ast.stmt) and id(d) not in seen:
+                        seen.add(id(d))
+                        v = assigned_value(d, n.id)
+                        if v is not None and reaches(v, depth + 1, seen):
+                            return True
+        return False
+
+    rets = [st for st in walk_shallow(f.node) if isinstance(st, ast.Return) and st.value is not None]
+    returned = any(reaches(st.value) for st in rets)
     three = [r for r in ring_siblings(ctx) for e, k in zip(r.ems, r.kinds) if k == "roll" and len(e.eq.rhs.args) == 3]
+    st_c = U.stmt_of_expr(c)
     if three:
-        ctx.info(rid, f, g, f"{len(three)} sibling(s) emit roll with an axis argument; the hook negates the token of args[-1] (the axis, which equals the shift "
-                            f"literal today), giving cshift(buf, -1, -1).  gfortran rejects that (invalid dim) and the `buf(,1)` subscripts of the 2-D form: "
-                            f"the Fortran 2-D ring buffer fails loudly at compile time (confirmed by a probe), it does not run wrongly",
+        ctx.info(rid, f, st_c, f"{len(three)} sibling(s) emit roll with an axis argument; the hook negates the token of args[-1] (the axis, which equals the shift "
+                               f"literal today), giving cshift(buf, -1, -1).  gfortran rejects that (invalid dim) and the `buf(,1)` subscripts of the 2-D form: "
+                               f"the Fortran 2-D ring buffer fails loudly at compile time (confirmed by a probe), it does not run wrongly",
                  label="cshift with axis argument (loud)")
-    if new_t == "-" + old_t and returns_expr and rebinds:
-        ctx.ok(rid, f, g, "the shift of a cshift call is replaced by its negation before the expression is returned "
-                          "(cshift(x, -1) = roll(x, 1))", facts, label="cshift shift negation")
+    if new_t == "-" + old_t and returned:
+        ctx.ok(rid, f, st_c, "the shift of a cshift call is replaced by its negation before the expression is returned "
+                             "(cshift(x, -1) = roll(x, 1))", facts, label=label)
     else:
-        ctx.violation(rid, f, g, f"the cshift rewrite does not negate the shift (replaces `{old_t}` by `{new_t}`"
-                                 f"{'' if returns_expr and rebinds else ', result not returned'}): the Fortran ring buffer would move "
-                                 f"towards lower slots", facts, label="cshift shift negation")
+        ctx.violation(rid, f, st_c, f"the cshift rewrite does not negate the shift (replaces `{old_t}` by `{new_t}`"
+                                    f"{'' if returned else ', result not returned'}): the Fortran ring buffer would move "
+                                    f"towards lower slots", facts, label=label)
 
 
 # ---------------------------------------------------------------------------------------------
